@@ -9,7 +9,7 @@ RULE = ("profiles of 4..40 layers with regular (arange/linspace, incl. the edge-
         "winds, L from 1(2) to N-1; equivalent_layers compared with the Coq model at binary64 (slab assignment exact, values 1e-10, NaN = NaN for empty "
         "slabs); optimal_grouping on integer-valued profiles (costs exact) with the random restarts recorded from numpy's global generator and served "
         "to the model, heights/strengths compared exactly; non-trivial = more than one non-empty slab / group; distinct = distinct (profile, L)")
-TRUSTED = ["model coq/model/Compress.v hand-written (numpy.arange element rule, digitize, vicinity enumeration, local search with 200 iterations)",
+TRUSTED = ["model coq/model/Compress.v hand-written (slab edges, digitize, vicinity enumeration, local search with 200 iterations)",
            "scipy.optimize.minimize (GCTM) is not modelled: bounds contract only, moment reproduction tested numerically",
            "numba _Gjit computes the same cost as the Python _G (compared through the model on integer data)"]
 ASSUMPTIONS = ["real-number reading for the conservation laws; the dropped-top-layer defect is a binary64 rounding effect exhibited by a witness"]
@@ -102,9 +102,10 @@ def correspond(ctx):
 
 def slab_info(h, L):
     hstep = (h.max() - h.min()) / L
-    bins = numpy.arange(h.min(), h.max(), hstep)
+    nb_arange = len(numpy.arange(h.min(), h.max(), hstep))      # edge-sensitive input: arange(hmin, hmax, step) would give L+1 edges
+    bins = h.min() + hstep * numpy.arange(L)
     ix = numpy.digitize(h, bins)
-    return len(bins), [int((ix == i + 1).sum()) for i in range(L)], int((ix > L).sum())
+    return nb_arange, [int((ix == i + 1).sum()) for i in range(L)], int((ix > L).sum())
 
 
 def property_checks(inp):
@@ -114,7 +115,7 @@ def property_checks(inp):
     with warnings.catch_warnings():
         warnings.simplefilter("ignore")
         nb, counts, dropped = slab_info(h, L)
-        tag = ("extra-edge" if nb != L else "regular-edges") + ("/empty-slab" if min(counts) == 0 else "")
+        tag = ("edge-sensitive" if nb != L else "regular-edges") + ("/empty-slab" if min(counts) == 0 else "")
         hL, cL, wL = pc.equivalent_layers(h, p, L, w=w)
         A(("EL returns exactly L layers with non-negative strengths (%s)" % tag, 0.0 if (len(hL) == L and len(cL) == L and (cL >= 0).all() and numpy.isfinite(hL).all()) else 1.0, 0.0))
         A(("EL conserves the total Cn2 / drops no layer (%s)" % tag, abs(float(cL.sum() / p.sum() - 1)), 1e-12))
@@ -208,8 +209,6 @@ def replay(payload):
 
 def classify(v, known):
     c = v["clause"]
-    if known["id"] == "C18-el-drops-top-layer":
-        return c.startswith("EL ") and "(extra-edge" in c
     if known["id"] == "C18-el-empty-slab-nan":
         return c.startswith("EL returns exactly L layers") and "empty-slab" in c
     if known["id"] == "C18-og-L1-returns-nothing":
@@ -220,10 +219,6 @@ def classify(v, known):
 def replay_known(known):
     with warnings.catch_warnings():
         warnings.simplefilter("ignore")
-        if known["id"] == "C18-el-drops-top-layer":
-            h = numpy.linspace(0, 15000, 200); p = numpy.ones(200) * 1e-15
-            hL, cL = pc.equivalent_layers(h, p, 7)
-            return abs(cL.sum() / p.sum() - 1) > 1e-12
         if known["id"] == "C18-el-empty-slab-nan":
             h = numpy.array([0., 10., 20., 1000.]); p = numpy.ones(4)
             hL, cL = pc.equivalent_layers(h, p, 3)
